@@ -133,3 +133,25 @@ Proof.
     rewrite (traits_refines _ id (reach_inv ops) Hw), abs_exec by assumption.
     rewrite (proj1 (sexec_stable ops sreg0 sinv0) id d D). reflexivity.
 Qed.
+
+(* ---------- statements used by Properties.v ---------- *)
+Lemma fresh_state : abs reg0 = sreg0 /\ inv reg0 /\ sinv sreg0.
+Proof. exact (conj abs_reg0 (conj inv_reg0 sinv0)). Qed.
+
+Lemma spec_ids_unique ops :
+  NoDup (s_issued_run sreg0 ops) /\ forall id, In id (s_issued_run sreg0 ops) -> s_get sreg0 id = None.
+Proof. exact (s_ids_unique ops sreg0 sinv0). Qed.
+
+Lemma spec_issued_range ops o id : s_issued o (snd (sstep (sexec sreg0 ops) o)) = Some id ->
+  reg_kind o <> KBuiltin /\ kind_first (reg_kind o) <= id <= kind_last (reg_kind o).
+Proof. apply s_ids_in_range, sexec_inv, sinv0. Qed.
+
+Lemma spec_stable ops1 ops2 :
+  let s1 := sexec sreg0 ops1 in
+  let s2 := sexec sreg0 (ops1 ++ ops2) in
+  (forall id d, s_get s1 id = Some d -> s_get s2 id = Some d) /\
+  (forall n id, s_find s1 n = Some id -> s_find s2 n = Some id).
+Proof. cbv zeta. rewrite sexec_app. apply sexec_stable, sexec_inv, sinv0. Qed.
+
+Lemma spec_refused_unchanged s o : s_issued o (snd (sstep s o)) = None -> fst (sstep s o) = s.
+Proof. exact (s_refused_unchanged s o). Qed.
